@@ -129,8 +129,9 @@ def gen_out(rng, tier):
             n = ZVALS[(k * 3) % len(ZVALS)]; d = [1, 2, 3, 8, 16, 255, 10 ** 20, 1 << 64, 7, 64][k % 10]
             yield "cxx_io_out_q %x 0 %s %x 6 %s %s" % (fl, hx(w), f, hx(n), hx(d))
             if k % 4 == 0: yield "cxx_io_out_q %x 0 %s %x 6 %s %s" % (fl, hx(w), f, hx(rng.getrandbits(70) - (1 << 69)), hx(rng.getrandbits(rng.choice([1, 4, 66])) + 1))
-    # non-canonical and odd rationals, odd fills, entry states
-    for n, d in [(0, 1), (0, 5), (4, 2), (-4, 2), (3, -2), (-3, -2), (1, 0), (0, 0), (5, 1), (8, 8), (1, 8), (-1, 16)]:
+    # non-canonical and odd rationals, odd fills, entry states.  No negative denominators: they are outside the mpq contract and mpq_get_str
+    # (mpq/get_str.c:41, `q->_mp_den._mp_size` without ABS) under-allocates its buffer for them — the recording allocator of the driver shows it
+    for n, d in [(0, 1), (0, 5), (4, 2), (-4, 2), (1, 0), (0, 0), (5, 1), (8, 8), (1, 8), (-1, 16)]:
         for fl in (F_DEC, F_OCT | F_SHOWBASE, F_HEX | F_SHOWBASE | F_INTERNAL, F_HEX | F_SHOWBASE | F_UPPER | F_SHOWPOS | F_LEFT, F_OCT | F_SHOWBASE | F_INTERNAL | F_SHOWPOS):
             for w in (0, 9): yield "cxx_io_out_q %x 0 %x 2a 6 %s %s" % (fl, w, hx(n), hx(d))
     for st in range(1, 8):
